@@ -100,3 +100,34 @@ class Store(object):
     def cleanup(self):
         for p in list(self.files):
             linecache.cache.pop(p, None)
+
+
+def scenario_prefix(sc):
+    """A store directory unique to the scenario: process-wide caches of the code under test that are
+    keyed by file name (crashtest's content cache, the trace renderer's snippet cache) can then never
+    serve one scenario what another one put there - without the harness knowing those caches."""
+    import hashlib
+    import json
+    body = {k: v for k, v in sc.items() if k != "_run"}
+    tag = hashlib.sha256(json.dumps(body, sort_keys=True, default=str).encode("utf-8")).hexdigest()[:10]
+    return PREFIX + "s" + tag + "/"
+
+
+def clear_known_caches():
+    """Best effort only (private names of the code under test may change): isolation between
+    scenarios rests on ``scenario_prefix``."""
+    try:
+        from crashtest.frame import Frame
+        c = getattr(Frame, "_content_cache", None)
+        if isinstance(c, dict):
+            for k in [k for k in c if isinstance(k, str) and k.startswith(PREFIX)]:
+                del c[k]
+    except Exception:
+        pass
+    try:
+        from clikit.ui.components.exception_trace import ExceptionTrace
+        c = getattr(ExceptionTrace, "_FRAME_SNIPPET_CACHE", None)
+        if isinstance(c, dict):
+            c.clear()
+    except Exception:
+        pass
